@@ -60,6 +60,7 @@ type Lowerer struct {
 	currentExprIdx ir.ExpressionHandle
 	isInsideLoop   bool // true when lowering statements inside a loop body
 	isStatement    bool // true when lowering an expression as a statement (ExprStmt)
+	callDepth      int  // nesting depth of lowerCall: only the outermost call of a statement discards its result
 
 	// nonConstExprs tracks expression handles that are forced non-const.
 	// WGSL spec: "let" binding initializers are not const expressions.
@@ -7522,6 +7523,8 @@ func (l *Lowerer) lowerNegatedLiteral(lit *parser.Literal) (ir.ExpressionHandle,
 
 // lowerCall converts a call expression to IR.
 func (l *Lowerer) lowerCall(call *parser.CallExpr, target *[]ir.Statement) (ir.ExpressionHandle, error) {
+	l.callDepth++
+	defer func() { l.callDepth-- }()
 	funcName := call.Func.Name
 
 	// Check if this is a built-in function (vec4, vec3, etc.)
@@ -7646,7 +7649,7 @@ func (l *Lowerer) lowerCall(call *parser.CallExpr, target *[]ir.Statement) (ir.E
 	// Enforce @must_use: if the function is marked @must_use and its result
 	// is discarded as a statement, emit an error.
 	// Matches Rust naga: FunctionMustUseUnused.
-	if l.funcMustUse[funcName] && l.isStatement {
+	if l.funcMustUse[funcName] && l.isStatement && l.callDepth == 1 {
 		return 0, fmt.Errorf("result of @must_use function '%s' must be used", funcName)
 	}
 
